@@ -8,6 +8,7 @@
   The property theorems of Props/C01Storage.lean are statements about exactly these shapes.
 -/
 import ExoModel.Rewrite
+import ExoModel.RewriteReindex
 
 namespace Exo.Rw
 open Exo
@@ -214,5 +215,373 @@ def replS (t : Sym) (e : Expr) : Stmt → Stmt → Bool
 def bindExpr (t : Sym) (e : Expr) (s' : Stmt) : Local
   | s :: r => if replS t e s s' then some (.alloc t [] :: .assign t [] e :: s' :: r) else none
   | [] => none
+
+/-! ### the dimension rewrites: divide_dim, mult_dim, rearrange_dim, resize_dim, unroll_buffer
+
+All five walk `get_rest_of_block(alloc_cursor)` and run `_replace_reads` / `_replace_writes` on every
+statement that follows the allocation (same traversal as `expand_dim` above: every `Read` and every
+`WindowExpr` of the buffer anywhere below — index lists, right-hand sides, conditions, bounds, call
+arguments —, every `Assign` / `Reduce` whose target is the buffer; NOT extents of later allocations,
+NOT `free`; `StrideExpr` only by `DoRearrangeDim`, through `_replace_pats "stride(x, _)"`).
+The generic re-indexing is `reidxL` / `reindexDim` of ExoModel.RewriteReindex; here are the
+conditions under which the real `mk_read` / `mk_write` callbacks (or the wrappers in
+API_scheduling.py) raise, and the five `Local`s. -/
+
+mutual
+/-- some access to `x` below the expression: a `Read` of `x` whose index tuple satisfies `pr`, a
+    window expression of `x` whose coordinates satisfy `pw`, a `stride(x, d)` with `ps d` -/
+def anyAccE (x : Sym) (pr : List Expr → Bool) (pw : List WAcc → Bool) (ps : Nat → Bool) : Expr → Bool
+  | .read y idx => (y == x && pr idx) || anyAccEs x pr pw ps idx
+  | .lit _ => false
+  | .usub a => anyAccE x pr pw ps a
+  | .binop _ a b => anyAccE x pr pw ps a || anyAccE x pr pw ps b
+  | .extern _ args => anyAccEs x pr pw ps args
+  | .win y acc => (y == x && pw acc) || anyAccWs x pr pw ps acc
+  | .stride y d => y == x && ps d
+  | .readcfg _ _ => false
+def anyAccEs (x : Sym) (pr : List Expr → Bool) (pw : List WAcc → Bool) (ps : Nat → Bool) : List Expr → Bool
+  | [] => false
+  | a :: r => anyAccE x pr pw ps a || anyAccEs x pr pw ps r
+def anyAccW (x : Sym) (pr : List Expr → Bool) (pw : List WAcc → Bool) (ps : Nat → Bool) : WAcc → Bool
+  | .interval a b => anyAccE x pr pw ps a || anyAccE x pr pw ps b
+  | .point a => anyAccE x pr pw ps a
+def anyAccWs (x : Sym) (pr : List Expr → Bool) (pw : List WAcc → Bool) (ps : Nat → Bool) : List WAcc → Bool
+  | [] => false
+  | w :: r => anyAccW x pr pw ps w || anyAccWs x pr pw ps r
+end
+
+mutual
+/-- the same over statements; the target of an `assign` / `reduce` to `x` counts as an index tuple
+    (`mk_write` does to `s.idx` what `mk_read` does to `rd.idx`) -/
+def anyAccS (x : Sym) (pr : List Expr → Bool) (pw : List WAcc → Bool) (ps : Nat → Bool) : Stmt → Bool
+  | .assign y idx rhs => (y == x && pr idx) || anyAccEs x pr pw ps idx || anyAccE x pr pw ps rhs
+  | .reduce y idx rhs => (y == x && pr idx) || anyAccEs x pr pw ps idx || anyAccE x pr pw ps rhs
+  | .writecfg _ _ rhs _ => anyAccE x pr pw ps rhs
+  | .pass => false
+  | .ite c t el => anyAccE x pr pw ps c || anyAccL x pr pw ps t || anyAccL x pr pw ps el
+  | .loop _ lo hi b _ => anyAccE x pr pw ps lo || anyAccE x pr pw ps hi || anyAccL x pr pw ps b
+  | .alloc _ _ => false
+  | .free _ => false
+  | .call _ args => anyAccEs x pr pw ps args
+  | .window _ rhs => anyAccE x pr pw ps rhs
+def anyAccL (x : Sym) (pr : List Expr → Bool) (pw : List WAcc → Bool) (ps : Nat → Bool) : List Stmt → Bool
+  | [] => false
+  | s :: r => anyAccS x pr pw ps s || anyAccL x pr pw ps r
+end
+
+/-- some call argument is directly a `Read` (with or without indices) or a window expression of `x`
+    (`isinstance(c.parent()._node, LoopIR.Call)` in `DoRearrangeDim.mk_read`) -/
+def passesAcc (x : Sym) : List Expr → Bool
+  | [] => false
+  | .read y _ :: r => y == x || passesAcc x r
+  | .win y _ :: r => y == x || passesAcc x r
+  | _ :: r => passesAcc x r
+
+mutual
+def argAccS (x : Sym) : Stmt → Bool
+  | .call _ args => passesAcc x args
+  | .ite _ t el => argAccL x t || argAccL x el
+  | .loop _ _ _ b _ => argAccL x b
+  | _ => false
+def argAccL (x : Sym) : List Stmt → Bool
+  | [] => false
+  | s :: r => argAccS x s || argAccL x r
+end
+
+/-- `divide_dim(alloc, d, q)` (`DoDivideDim`).  Raises — model `none` —:
+    * wrapper: `d` out of range (`ValueError`; a scalar buffer has no dimension), `q` not a positive int;
+    * `Check_IsDivisible`, fast path: the extent is a literal not divisible by `q` (a symbolic extent
+      goes to the SMT analysis, which is not part of the shape);
+    * `mk_read`: a `Read` of the buffer without indices (`SchedulingError`), ANY window expression of
+      the buffer (`SchedulingError`); an index tuple shorter than `d + 1` (`IndexError`, ill-typed
+      input only).
+    `stride(x, _)` is not touched. -/
+def divideDim (d : Nat) (q : Int) : Local
+  | .alloc x sh :: r =>
+    if d < sh.length && decide (0 < q) then
+      let nondiv : Bool := match sh[d]? with
+        | some (.lit (.int n)) => n % q != 0
+        | _ => false
+      if nondiv then none
+      else if anyAccL x (fun idx => decide (idx.length ≤ d)) (fun _ => true) (fun _ => false) r then none
+      else reindexDim (divideShape d q sh) ⟨divideIdx d q, id, id⟩ (.alloc x sh :: r)
+    else none
+  | _ => none
+
+/-- `mult_dim(alloc, hi, lo)` (`DoMultiplyDim`).  Raises — model `none` —:
+    * wrapper: `hi` or `lo` out of range, `hi = lo` (`ValueError`);
+    * the extent of dimension `lo` is not a literal (`SchedulingError`);
+    * `mk_read`: a `Read` without indices, ANY window expression of the buffer; an index tuple too short.
+    The constant of the flattening `c * idx[hi] + idx[lo]` is the LITERAL extent of dimension `lo`,
+    whatever the order / adjacency of `hi` and `lo`.  `stride(x, _)` is not touched. -/
+def multDim (hi lo : Nat) : Local
+  | .alloc x sh :: r =>
+    if hi < sh.length && lo < sh.length && hi != lo then
+      match sh[lo]? with
+      | some (.lit (.int c)) =>
+        if anyAccL x (fun idx => decide (idx.length ≤ max hi lo)) (fun _ => true) (fun _ => false) r
+        then none
+        else reindexDim (multShape hi lo sh) ⟨multIdx hi lo c, id, id⟩ (.alloc x sh :: r)
+      | _ => none
+    else none
+  | _ => none
+
+/-- `list(range(0, N)) == sorted(permute_vector)` -/
+def isPermVec (perm : List Nat) (n : Nat) : Bool :=
+  perm.length == n && (List.range n).all (fun i => perm.contains i)
+
+def ascending : List Nat → Bool
+  | a :: b :: r => decide (a ≤ b) && ascending (b :: r)
+  | _ => true
+
+/-- `check_permute_window`: the dimensions that stay intervals must keep their relative order -/
+def winStable (perm : List Nat) (acc : List WAcc) : Bool :=
+  ascending (perm.filter (fun i => match acc[i]? with | some (.interval _ _) => true | _ => false))
+
+/-- `rearrange_dim(alloc, perm)` (`DoRearrangeDim` on an allocation).  Raises — model `none` —:
+    * wrapper: `perm` is not a permutation of `0 … N-1` (`ValueError`); scalar buffer (`AttributeError`);
+    * `mk_read`: a `Read` or window expression of the buffer that is directly an argument of a call
+      (`SchedulingError`, tested first, whatever the indices);
+    * a window expression that fails the stability criterion (`SchedulingError`);
+    * an index tuple / coordinate list shorter than `N`, a `stride(x, d)` with `d ≥ N`
+      (`IndexError` / `ValueError`; ill-typed input only).
+    This is the only one of the four that renumbers `stride(x, d)` (to `perm.index(d)`). -/
+def rearrangeDim (perm : List Nat) : Local
+  | .alloc x sh :: r =>
+    if sh.isEmpty || !isPermVec perm sh.length then none
+    else if argAccL x r then none
+    else if anyAccL x (fun idx => decide (idx.length < sh.length))
+        (fun acc => decide (acc.length < sh.length) || !winStable perm acc)
+        (fun d => decide (sh.length ≤ d)) r then none
+    else reindexDim (permList perm sh) ⟨permList perm, permList perm, permDim perm⟩ (.alloc x sh :: r)
+  | _ => none
+
+/-- `resize_dim(alloc, d, size, offset, fold=False)` (`DoResizeDim`).  Raises — model `none` —:
+    * scalar buffer (`assert`), `d` out of range (`IndexError` from the cursor into `type.hi`);
+    * `mk_read` / `mk_write`: an index tuple / coordinate list shorter than `d + 1` — in particular
+      a `Read` without indices (the whole buffer passed to a call): `IndexError`.
+    Window expressions ARE supported (point and both ends of an interval get `- offset`).
+    `Check_IsPositiveExpr(size)` and `Check_Bounds` are analyses, not part of the shape.
+    `stride(x, _)` is not touched. -/
+def resizeDim (d : Nat) (size off : Expr) : Local
+  | .alloc x sh :: r =>
+    if d < sh.length then
+      if anyAccL x (fun idx => decide (idx.length ≤ d)) (fun acc => decide (acc.length ≤ d))
+          (fun _ => false) r then none
+      else reindexDim (resizeShape d size sh) ⟨resizeIdx d off, resizeWin d off, id⟩ (.alloc x sh :: r)
+    else none
+  | _ => none
+
+/-! #### unroll_buffer
+
+`DoUnrollBuffer(alloc, d)`: the extent of dimension `d` must be a literal `n`; the real code makes
+`n` fresh symbols `x_0 … x_{n-1}`, rewrites every access `x[…, k, …]` (`k` a literal at position
+`d`; also window expressions with a literal POINT at position `d`) into `x_k[…]` (index `d`
+deleted), collects the `k`s in a Python `set` (`used_allocs`) and finally REPLACES the allocation
+by one allocation per element of the set, in the iteration order of the set.  The set is filled in
+this order: for every statement `c` of the rest of the block, first all reads below `c` (pre-order
+of `_children`: `idx` before `rhs`, `cond`/`lo`/`hi` before bodies, `body` before `orelse`), then
+the targets of all `Assign`s below `c`, then the targets of all `Reduce`s below `c`.
+
+The iteration order of a CPython `set` of small non-negative ints (hash = value) is the order of
+the slots of its open-addressing table; `pySetOrder` replays `set_add_entry` / `set_table_resize`
+of Objects/setobject.c (CPython 3.12: table of 8 slots, slot `h & mask`, `LINEAR_PROBES = 9`
+linear probes when they fit below the end of the table, then `perturb >>= 5;
+i = (i*5 + 1 + perturb) & mask`; after an insertion that makes `fill*5 ≥ mask*3` the table is
+rebuilt with the smallest power of two `> 4*used` slots, re-inserting in old slot order).  For
+extents `≤ 8` this is ascending order; for larger extents it is not (`{9, 1}` iterates as 9, 1). -/
+
+/-- first slot of the probe sequence of `key` that is empty or holds `key` -/
+def pyProbe (tbl : Array (Option Nat)) (mask key : Nat) : Nat → Nat → Nat → Option Nat
+  | 0, _, _ => none
+  | fuel + 1, i, perturb =>
+    let probes := if i + 9 ≤ mask then 9 else 0
+    match (List.range (probes + 1)).find? (fun j =>
+        match tbl[i + j]? with
+        | some none => true
+        | some (some k) => k == key
+        | none => false) with
+    | some j => some (i + j)
+    | none =>
+      let perturb := perturb / 32
+      pyProbe tbl mask key fuel ((i * 5 + 1 + perturb) % (mask + 1)) perturb
+
+def pyInsert (tbl : Array (Option Nat)) (key : Nat) : Array (Option Nat) :=
+  match pyProbe tbl (tbl.size - 1) key (4 * tbl.size + 64) (key % tbl.size) key with
+  | some s => tbl.set! s (some key)
+  | none => tbl
+
+/-- smallest power of two (≥ 8) greater than `minused`; `fuel` bounds the doubling -/
+def pyNewSize (minused : Nat) : Nat → Nat → Nat
+  | 0, sz => sz
+  | fuel + 1, sz => if sz ≤ minused then pyNewSize minused fuel (sz * 2) else sz
+
+/-- `set.add(key)` on (table, fill) -/
+def pySetAdd (st : Array (Option Nat) × Nat) (key : Nat) : Array (Option Nat) × Nat :=
+  let (tbl, fill) := st
+  let mask := tbl.size - 1
+  match pyProbe tbl mask key (4 * tbl.size + 64) (key % tbl.size) key with
+  | none => st
+  | some s =>
+    match tbl[s]? with
+    | some (some _) => st
+    | _ =>
+      let tbl := tbl.set! s (some key)
+      let fill := fill + 1
+      if fill * 5 < mask * 3 then (tbl, fill)
+      else
+        let newsize := pyNewSize (fill * 4) 64 8
+        let fresh : Array (Option Nat) := Array.replicate newsize none
+        ((tbl.toList.filterMap id).foldl pyInsert fresh, fill)
+
+/-- iteration order of the Python set obtained by adding `ks` one after the other to `set()` -/
+def pySetOrder (ks : List Nat) : List Nat :=
+  ((ks.foldl pySetAdd (Array.replicate 8 none, 0)).1.toList).filterMap id
+
+/-- literal at position `d` of an index tuple (`none`: `mk_read` / `mk_write` raises) -/
+def litAt (d : Nat) (idx : List Expr) : Option Nat :=
+  match idx[d]? with
+  | some (.lit (.int k)) => if 0 ≤ k then some k.toNat else none
+  | _ => none
+/-- literal point at position `d` of a window expression -/
+def wlitAt (d : Nat) (acc : List WAcc) : Option Nat :=
+  match acc[d]? with
+  | some (.point (.lit (.int k))) => if 0 ≤ k then some k.toNat else none
+  | _ => none
+
+mutual
+/-- the `used_allocs.add(…)` calls of `mk_read` below an expression, in the order of
+    `match_pattern` (node before children); `none` = `mk_read` raises there -/
+def usedE (x : Sym) (d : Nat) : Expr → List (Option Nat)
+  | .read y idx => (if y == x then [litAt d idx] else []) ++ usedEs x d idx
+  | .lit _ => []
+  | .usub a => usedE x d a
+  | .binop _ a b => usedE x d a ++ usedE x d b
+  | .extern _ args => usedEs x d args
+  | .win y acc => (if y == x then [wlitAt d acc] else []) ++ usedWs x d acc
+  | .stride _ _ => []
+  | .readcfg _ _ => []
+def usedEs (x : Sym) (d : Nat) : List Expr → List (Option Nat)
+  | [] => []
+  | a :: r => usedE x d a ++ usedEs x d r
+def usedW (x : Sym) (d : Nat) : WAcc → List (Option Nat)
+  | .interval a b => usedE x d a ++ usedE x d b
+  | .point a => usedE x d a
+def usedWs (x : Sym) (d : Nat) : List WAcc → List (Option Nat)
+  | [] => []
+  | w :: r => usedW x d w ++ usedWs x d r
+end
+
+mutual
+/-- reads below a statement, in `_children` order -/
+def usedRdS (x : Sym) (d : Nat) : Stmt → List (Option Nat)
+  | .assign _ idx rhs => usedEs x d idx ++ usedE x d rhs
+  | .reduce _ idx rhs => usedEs x d idx ++ usedE x d rhs
+  | .writecfg _ _ rhs _ => usedE x d rhs
+  | .ite c t el => usedE x d c ++ usedRdL x d t ++ usedRdL x d el
+  | .loop _ lo hi b _ => usedE x d lo ++ usedE x d hi ++ usedRdL x d b
+  | .call _ args => usedEs x d args
+  | .window _ rhs => usedE x d rhs
+  | _ => []
+def usedRdL (x : Sym) (d : Nat) : List Stmt → List (Option Nat)
+  | [] => []
+  | s :: r => usedRdS x d s ++ usedRdL x d r
+end
+
+mutual
+/-- targets of the `Assign`s (`asg = true`) / `Reduce`s (`asg = false`) to `x` below a statement -/
+def usedWrS (asg : Bool) (x : Sym) (d : Nat) : Stmt → List (Option Nat)
+  | .assign y idx _ => if asg && y == x then [litAt d idx] else []
+  | .reduce y idx _ => if !asg && y == x then [litAt d idx] else []
+  | .ite _ t el => usedWrL asg x d t ++ usedWrL asg x d el
+  | .loop _ _ _ b _ => usedWrL asg x d b
+  | _ => []
+def usedWrL (asg : Bool) (x : Sym) (d : Nat) : List Stmt → List (Option Nat)
+  | [] => []
+  | s :: r => usedWrS asg x d s ++ usedWrL asg x d r
+end
+
+/-- all `used_allocs.add` calls over the rest of the block, in order -/
+def usedL (x : Sym) (d : Nat) : List Stmt → List (Option Nat)
+  | [] => []
+  | c :: r => usedRdS x d c ++ usedWrS true x d c ++ usedWrS false x d c ++ usedL x d r
+
+/-- the indices for which an allocation is emitted, in emission order; `none` where the real code
+    raises: extent of dimension `d` not a literal / no such dimension (scalar buffer included), an
+    access whose `d`-th index is not a literal (for a window expression: not a literal point), a
+    literal `≥ n` (`IndexError` on `buf_syms`).  (A NEGATIVE literal would be accepted by the real
+    code through Python's negative indexing; the model answers `none`.) -/
+def unrollOrder (x : Sym) (d : Nat) (sh : List Expr) (r : List Stmt) : Option (List Nat) :=
+  match sh[d]? with
+  | some (.lit (.int n)) =>
+    let us := usedL x d r
+    if us.all (fun u => match u with | some k => decide ((k : Int) < n) | none => false)
+    then some (pySetOrder (us.filterMap id)) else none
+  | _ => none
+
+mutual
+/-- `x[…, k, …]` becomes `nm k […]` -/
+def unrollE (x : Sym) (d : Nat) (nm : Nat → Sym) : Expr → Expr
+  | .read y idx =>
+    if y == x then .read (nm ((litAt d idx).getD 0)) ((unrollEs x d nm idx).eraseIdx d)
+    else .read y (unrollEs x d nm idx)
+  | .lit c => .lit c
+  | .usub a => .usub (unrollE x d nm a)
+  | .binop o a b => .binop o (unrollE x d nm a) (unrollE x d nm b)
+  | .extern f args => .extern f (unrollEs x d nm args)
+  | .win y acc =>
+    if y == x then .win (nm ((wlitAt d acc).getD 0)) ((unrollWs x d nm acc).eraseIdx d)
+    else .win y (unrollWs x d nm acc)
+  | .stride y k => .stride y k
+  | .readcfg c f => .readcfg c f
+def unrollEs (x : Sym) (d : Nat) (nm : Nat → Sym) : List Expr → List Expr
+  | [] => []
+  | a :: r => unrollE x d nm a :: unrollEs x d nm r
+def unrollW (x : Sym) (d : Nat) (nm : Nat → Sym) : WAcc → WAcc
+  | .interval a b => .interval (unrollE x d nm a) (unrollE x d nm b)
+  | .point a => .point (unrollE x d nm a)
+def unrollWs (x : Sym) (d : Nat) (nm : Nat → Sym) : List WAcc → List WAcc
+  | [] => []
+  | w :: r => unrollW x d nm w :: unrollWs x d nm r
+end
+
+mutual
+def unrollS (x : Sym) (d : Nat) (nm : Nat → Sym) : Stmt → Stmt
+  | .assign y idx rhs =>
+    if y == x then .assign (nm ((litAt d idx).getD 0)) ((unrollEs x d nm idx).eraseIdx d) (unrollE x d nm rhs)
+    else .assign y (unrollEs x d nm idx) (unrollE x d nm rhs)
+  | .reduce y idx rhs =>
+    if y == x then .reduce (nm ((litAt d idx).getD 0)) ((unrollEs x d nm idx).eraseIdx d) (unrollE x d nm rhs)
+    else .reduce y (unrollEs x d nm idx) (unrollE x d nm rhs)
+  | .writecfg c f rhs dd => .writecfg c f (unrollE x d nm rhs) dd
+  | .pass => .pass
+  | .ite c t el => .ite (unrollE x d nm c) (unrollL x d nm t) (unrollL x d nm el)
+  | .loop i lo hi b par => .loop i (unrollE x d nm lo) (unrollE x d nm hi) (unrollL x d nm b) par
+  | .alloc y sh => .alloc y sh
+  | .free y => .free y
+  | .call f args => .call f (unrollEs x d nm args)
+  | .window y rhs => .window y (unrollE x d nm rhs)
+def unrollL (x : Sym) (d : Nat) (nm : Nat → Sym) : List Stmt → List Stmt
+  | [] => []
+  | s :: r => unrollS x d nm s :: unrollL x d nm r
+end
+
+/-- `unroll_buffer(alloc, d)` (`DoUnrollBuffer`).  `names` = the fresh symbols of the EMITTED
+    allocations, in emission order (`names[j]` is the buffer for the literal `(unrollOrder …)[j]`;
+    the real code creates a symbol for every `k < n`, but only the used ones appear anywhere).
+    The allocation is replaced by `names.length` allocations of shape `sh` minus dimension `d`;
+    NOTHING is left when the buffer is never accessed — also no `pass`, even if the allocation was
+    the only statement of its block (the real code calls `_replace([])`, not `_delete`).
+    `stride(x, _)` is not touched (it keeps the OLD symbol, which is no longer allocated). -/
+def unrollBuffer (d : Nat) (names : List Sym) : Local
+  | .alloc x sh :: r =>
+    match unrollOrder x d sh r with
+    | some order =>
+      if names.length == order.length then
+        let nm : Nat → Sym := fun k => names.getD (order.idxOf k) x
+        some (names.map (fun y => .alloc y (sh.eraseIdx d)) ++ unrollL x d nm r)
+      else none
+    | none => none
+  | _ => none
 
 end Exo.Rw
